@@ -197,15 +197,31 @@ def run(chk):
     chk.ob('C09-S', 'set() looks up the addressed repetition with its index argument', ok_lookup,
            'child_at_index is not called with the index parameter `%s`' % index_p, st.loc, key='C09-S|set|lookup')
     ok_branch = False
-    for n in own_nodes(st.node):
-        if isinstance(n, ast.If) and var and norm(n.test) in ('%s is None' % var, 'not %s' % var):
-            a = [norm(x) for x in ast.walk(ast.Module(body=n.body, type_ignores=[])) if isinstance(x, ast.Call)]
-            b = [norm(x) for x in ast.walk(ast.Module(body=n.orelse, type_ignores=[])) if isinstance(x, ast.Call)]
-            if any(x.startswith('self.append(') for x in a) and any(x.startswith('self.replace_child(%s,' % var) for x in b):
-                ok_branch = True
+    why_branch = 'the append / replace_child calls on the looked-up repetition were not found'
+    if var:
+        from ..cfg import cfg_of, edge_implies
+        g_ = cfg_of(st)
+        lookup = [g_.node_for(n) for n in own_nodes(st.node) if isinstance(n, ast.Assign) and norm(n.targets[0]) == var]
+        appends = [n for n in own_nodes(st.node) if isinstance(n, ast.Call) and norm(n.func) == 'self.append']
+        replaces = [n for n in own_nodes(st.node) if isinstance(n, ast.Call) and norm(n.func) == 'self.replace_child' and
+                    n.args and norm(n.args[0]) == var]
+        ABSENT = (('%s is None' % var, 'not %s' % var), ('%s is not None' % var, var))
+        PRESENT = (ABSENT[1], ABSENT[0])
+
+        def reach_without(fact):
+            def ok_edge(src, dst, lab):
+                nd = g_.nodes[src]
+                return not (nd.kind == 'test' and edge_implies(nd.ast, lab, fact[0], fact[1]))
+            return g_.reach(lookup, labels_ok=ok_edge)
+        if appends and replaces and lookup:
+            r_abs, r_pre = reach_without(ABSENT), reach_without(PRESENT)
+            bad_a = [n for n in appends if g_.node_for(n) in r_abs]      # append reachable although the repetition may exist
+            bad_r = [n for n in replaces if g_.node_for(n) in r_pre]     # replace reachable although nothing was found
+            ok_branch = not bad_a and not bad_r
+            why_branch = 'append is reachable when the addressed repetition exists' if bad_a else \
+                'replace_child is reachable when no repetition was found' if bad_r else ''
     chk.ob('C09-S', 'set() appends when absent and replaces in place otherwise', ok_branch,
-           'the append / replace_child branches on the looked-up repetition are gone or swapped', st.loc,
-           key='C09-S|set|branch')
+           why_branch, st.loc, key='C09-S|set|branch')
     # ---- K: index kinds
     chk.rule('C09-K', 'a position in the child list is never passed where a position among the same-named repetitions '
                       'is expected (and vice versa)')
